@@ -269,3 +269,8 @@ func (a W256) BitLen() uint { return uint(a.big().BitLen()) }
 // Concrete returns v; the engine forks the path over every feasible value of v (case split), so
 // that code depending on it afterwards sees a constant. Natively the identity.
 func Concrete(v uint64) uint64 { return v }
+
+// NodeHashesSeparated is CollisionFree plus the Starknet node-hash domain separation: two different
+// Pedersen/Poseidon outputs are never within 251 of each other, so H(a,b)+len (edge) cannot coincide
+// with another node's hash. Engine only (ideal-hash assumption); natively a no-op.
+func NodeHashesSeparated() {}
